@@ -265,7 +265,20 @@ func cmdCheck(args []string) int {
 	trusted := []string{"go/packages + go/ssa (x/tools v0.29.0) lowering of the repository source", "govc encoding of SSA into SMT-LIB (this verifier)",
 		"SMT solvers z3 4.8.12, z3-new 5.1.0, cvc5 1.0.3 (an obligation is discharged when one answers unsat and none answers sat)",
 		"sequential semantics only: no concurrency is modelled", fmt.Sprintf("allocation sizes bounded by 2^%d (amd64 Go runtime)", maxLenLog)}
+	verified := map[string]bool{}
+	for _, fr := range fnReports {
+		verified[fr.Name] = true
+	}
+	var assumedCallees []string
 	for _, n := range sortedKeys(notes) {
+		if strings.HasPrefix(n, "callee contract used: ") {
+			callee := strings.TrimPrefix(n, "callee contract used: ")
+			if verified[callee] {
+				continue // verified in this run: not an assumption
+			}
+			n = "ASSUMED callee contract (not verified under this property): " + callee
+			assumedCallees = append(assumedCallees, callee)
+		}
 		trusted = append(trusted, n)
 	}
 	ev := map[string]interface{}{
@@ -278,6 +291,7 @@ func cmdCheck(args []string) int {
 			"functions_under_contract": fnReports,
 			"per_obligation":           obReports,
 			"known_findings":           knownPrinted,
+			"assumed_callee_contracts": assumedCallees,
 			"cover_queries":            len(covers),
 			"back_ends":                "z3-new 5.1.0, z3 4.8.12, cvc5 1.0.3 raced per obligation",
 			"solver_time_s":            float64(solverMs) / 1000.0,
